@@ -142,17 +142,220 @@ let num_op (op : string) (args : number list) : string =
   | "ge", [a; b] -> show_bool (num_geb a b)
   | _ -> failwith ("bad NUM op " ^ op)
 
+
+(* ---------- world state of the current case ---------- *)
+let repo = try Sys.getenv "RUSCHM_SLD_DIR" with Not_found -> (try Sys.getenv "RUSCHM_REPO" with Not_found -> "/repo")
+let read_file_str path =
+  let ic = open_in_bin path in
+  let n = in_channel_length ic in
+  let b = really_input_string ic n in close_in ic; b
+let sld_path name =
+  if Sys.file_exists (Filename.concat repo name) then Filename.concat repo name
+  else match name with
+    | "grammar.sld" -> Filename.concat repo "src/parser/grammar.sld"
+    | "base.sld" -> Filename.concat repo "src/interpreter/library/include/scheme/base.sld"
+    | _ -> Filename.concat repo "src/interpreter/library/include/scheme/write.sld"
+let grammar_text = lazy (str_of_string (read_file_str (sld_path "grammar.sld")))
+let base_text = lazy (str_of_string (read_file_str (sld_path "base.sld")))
+let write_text = lazy (str_of_string (read_file_str (sld_path "write.sld")))
+let syn0 = lazy (initial_syntax (Lazy.force grammar_text))
+
+let w_syn : sframe ref = ref []
+let w_st : state ref = ref empty_state
+let w_fs : filesys ref = ref []
+let w_fresh : bool ref = ref true      (* nothing has happened in this world yet *)
+let insts : (int, instance) Hashtbl.t = Hashtbl.create 8
+let vec_ids : (int, int) Hashtbl.t = Hashtbl.create 16
+let cwd : str = str_of_string "cwd"
+
+let reset () =
+  w_syn := Lazy.force syn0; w_st := empty_state; w_fs := []; w_fresh := true;
+  Hashtbl.reset insts; Hashtbl.reset vec_ids
+
+let int_of_nat (x : nat) : int = let rec go x acc = match x with O -> acc | S y -> go y (acc + 1) in go x 0
+
+(* ---------- canonical value printing ---------- *)
+let rec show_formals (fm : formals) : string =
+  let fx = String.concat " " (List.map string_of_str fm.f_fixed) in
+  match fm.f_rest with
+  | None -> "(" ^ fx ^ ")"
+  | Some r -> if fm.f_fixed = [] then string_of_str r else "(" ^ fx ^ " . " ^ string_of_str r ^ ")"
+
+let rec show_value (depth : int) (v : value) : string =
+  if depth > 200 then "(deep)" else
+  match v with
+  | VNum n -> show_number n
+  | VBool true -> "#t" | VBool false -> "#f"
+  | VChar c -> Printf.sprintf "(char %d)" (int_of_n c)
+  | VStr x -> "(str " ^ hex_of_str x ^ ")"
+  | VSym x -> "(sym " ^ hex_of_str x ^ ")"
+  | VProcU (fm, _, _, _) -> "(proc user " ^ hex_encode (show_formals fm) ^ ")"
+  | VProcB name -> "(proc builtin " ^ hex_of_str name ^ ")"
+  | VVec (m, a) ->
+      let a = int_of_nat a in
+      (match Hashtbl.find_opt vec_ids a with
+       | Some id -> Printf.sprintf "(vec %s #%d)" (if m then "m" else "l") id
+       | None ->
+           let id = Hashtbl.length vec_ids in
+           Hashtbl.add vec_ids a id;
+           let cells = (match List.nth_opt !w_st.vectors a with Some c -> c | None -> []) in
+           Printf.sprintf "(vec %s #%d [%s])" (if m then "m" else "l") id
+             (String.concat " " (List.map (show_value (depth + 1)) cells)))
+  | VNil -> "()"
+  | VPair (a, b) -> let sa = show_value (depth + 1) a in let sb = show_value (depth + 1) b in "(pair " ^ sa ^ " " ^ sb ^ ")"
+  | VTransformer _ -> "(transformer)"
+  | VVoid -> "(void)"
+
+let show_opt_value (o : value option) : string =
+  match o with None -> "none" | Some v -> show_value 0 v
+
+let show_outcome (r : value option res) : string =
+  match r with
+  | Ok o -> "(ok " ^ show_opt_value o ^ ")"
+  | other -> show_res (fun _ -> "") other
+
+(* ticks and depth side channels *)
+let take_side () : string =
+  let st = !w_st in
+  let t = String.concat "," (List.map string_of_z st.ticks) in
+  let d = int_of_nat st.maxdepth in
+  w_st := { st with ticks = []; depth = O; maxdepth = O };
+  Printf.sprintf " t=[%s] d=%d" t d
+
+let get_inst (i : int) : instance =
+  match Hashtbl.find_opt insts i with Some x -> x | None -> failwith "no such instance"
+
+let ctx_of (i : int) : ictx = { c_inst = get_inst i; c_st = !w_st; c_syn = !w_syn }
+let commit (i : int) (c : ictx) : unit =
+  Hashtbl.replace insts i c.c_inst; w_st := c.c_st; w_syn := c.c_syn; w_fresh := false
+
+let lname (parts : string list) : libname = List.map (fun p -> LIdent (str_of_string p)) parts
+let tick_lib : library = native_defs tick_table
+let lib4 : library =
+  List.map (fun (n, v) -> (str_of_string n, VNum (NInt (z_of_int v)))) [("a", 1); ("b", 2); ("c", 3); ("d", 4)]
+
+let fresh_cache : (bool, (instance * state * sframe)) Hashtbl.t = Hashtbl.create 2
+
+let new_inst (i : int) (std : bool) : string =
+  let build () =
+    let ((ri, st1), syn1) = new_instance (Lazy.force base_text) (Lazy.force write_text) !w_st !w_syn in
+    match ri with
+    | Ok inst ->
+        let inst = register_factory inst (lname ["verif"; "tick"]) (FNative tick_lib) in
+        let inst = register_factory inst (lname ["verif"; "lib4"]) (FNative lib4) in
+        if std then begin
+          let (r, c) = import_stdlib !w_fs cwd { c_inst = inst; c_st = st1; c_syn = syn1 } in
+          match r with
+          | Ok _ -> Some (c.c_inst, c.c_st, c.c_syn)
+          | _ -> (w_st := c.c_st; w_syn := c.c_syn; None)
+        end else Some (inst, st1, syn1)
+    | _ -> (w_st := st1; w_syn := syn1; None)
+  in
+  let r =
+    if !w_fresh then begin
+      match Hashtbl.find_opt fresh_cache std with
+      | Some x -> Some x
+      | None -> (match build () with Some x -> Hashtbl.add fresh_cache std x; Some x | None -> None)
+    end else build () in
+  w_fresh := false;
+  match r with
+  | Some (inst, st, syn) -> Hashtbl.replace insts i inst; w_st := st; w_syn := syn; "ok"
+  | None -> "(panic)"
+
+let efuel = default_efuel
+
+let show_tokens (r : (token * pos) list res) : string =
+  let show_prim p = match p with
+    | PStr x -> "(str " ^ hex_of_str x ^ ")" | PChar c -> Printf.sprintf "(char %d)" (int_of_n c)
+    | PBool b -> if b then "#t" else "#f" | PInt z -> "i" ^ string_of_z z
+    | PRat (a, b) -> "q" ^ string_of_z a ^ "/" ^ string_of_z b | PReal x -> "(real " ^ hex_of_str x ^ ")" in
+  let show_tok t = match t with
+    | TIdent x -> "(id " ^ hex_of_str x ^ ")" | TPrim p -> show_prim p
+    | TLParen -> "LP" | TRParen -> "RP" | TVecOpen -> "VEC" | TByteVecOpen -> "BVEC" | TQuote -> "QUOTE"
+    | TQuasi -> "QUASI" | TUnquote -> "UNQ" | TUnquoteSplicing -> "UNQS" | TPeriod -> "DOT" in
+  show_res (fun l -> String.concat " " (List.map (fun (t, (a, b)) ->
+      Printf.sprintf "%s@%d:%d" (show_tok t) (int_of_n a) (int_of_n b)) l)) r
+
+let rec show_datum (d : datum) : string =
+  let lo l = match l with None -> "" | Some (a, b) -> Printf.sprintf "@%d:%d" (int_of_n a) (int_of_n b) in
+  match d with
+  | DPrim (p, l) -> (match p with
+      | PStr x -> "(str " ^ hex_of_str x ^ ")" | PChar c -> Printf.sprintf "(char %d)" (int_of_n c)
+      | PBool b -> if b then "#t" else "#f" | PInt z -> "i" ^ string_of_z z
+      | PRat (a, b) -> "q" ^ string_of_z a ^ "/" ^ string_of_z b | PReal x -> "(real " ^ hex_of_str x ^ ")") ^ lo l
+  | DSym (x, l) -> "(sym " ^ hex_of_str x ^ ")" ^ lo l
+  | DNil l -> "()" ^ lo l
+  | DCons (a, b, l) -> "(pair " ^ show_datum a ^ " " ^ show_datum b ^ ")" ^ lo l
+  | DVec (v, l) -> "(vec [" ^ String.concat " " (List.map show_datum v) ^ "])" ^ lo l
+
 let handle (line : string) : string =
   match String.split_on_char ' ' line with
   | "NUM" :: op :: args -> num_op op (List.map parse_number args)
   | "LIT" :: [h] ->
-      (* decimal literal: sign mant e10 given as  s<0|1>,<mant>,<e10> *)
       (match String.split_on_char ',' h with
        | [s; m; e] -> show_real (f32_of_decimal (s = "1") (z_of_int (int_of_string m)) (z_of_int (int_of_string e)))
        | _ -> failwith "bad LIT")
+  | ["RESET"] -> reset (); "ok"
+  | ["NEW"; i; kind] -> new_inst (int_of_string i) (kind = "std")
+  | ["EVAL"; i; h] ->
+      let i = int_of_string i in
+      let ((r, c), _) = eval_text !w_fs cwd efuel (str_of_string (hex_decode h)) (ctx_of i) in
+      commit i c; let o = show_outcome r in o ^ take_side ()
+  | ["PROG"; i; h] ->
+      let i = int_of_string i in
+      let ((_, c), trace) = eval_text !w_fs cwd efuel (str_of_string (hex_decode h)) (ctx_of i) in
+      commit i c;
+      let o = String.concat ";" (List.map show_outcome trace) in o ^ take_side ()
+  | ["EVALD"; i; h] ->
+      let i = int_of_string i in
+      let ((r, c), _) = eval_text !w_fs cwd efuel (str_of_string (hex_decode h)) (ctx_of i) in
+      commit i c;
+      (match r with
+       | Ok (Some v) -> (match display (nat_of_int 10000) !w_st v with
+                         | Some t -> "(disp " ^ hex_of_str t ^ ")" | None -> "(disp-fail)")
+       | Ok None -> "(disp-none)"
+       | other -> show_outcome other) ^ take_side ()
+  | ["DEFNUM"; i; name; num] ->
+      let i = int_of_string i in
+      let inst = get_inst i in
+      w_st := env_define !w_st inst.i_env (str_of_string (hex_decode name)) (VNum (parse_number num));
+      w_fresh := false; "ok"
+  | ["ENV"; i] ->
+      let inst = get_inst (int_of_string i) in
+      (match List.nth_opt !w_st.frames (int_of_nat inst.i_env) with
+       | None -> "(noenv)"
+       | Some fr ->
+           let items = List.map (fun (k, v) -> (string_of_str k, v)) fr.f_defs in
+           let items = List.sort (fun (a, _) (b, _) -> compare a b) items in
+           String.concat " " (List.map (fun (k, v) ->
+               hex_encode k ^ "=" ^ (match v with VProcB _ | VProcU _ -> "(proc)" | _ -> show_value 0 v)) items))
+  | ["LEX"; h] -> show_tokens (lex_text (str_of_string (hex_decode h)))
+  | ["READ"; h] -> show_res (fun l -> String.concat " " (List.map show_datum l)) (read_text (str_of_string (hex_decode h)))
+  | ["FILE"; dir; parts; content] ->
+      let key = (str_of_string (hex_decode dir), List.map (fun p -> str_of_string (hex_decode p)) (String.split_on_char ',' parts)) in
+      let entry = (match content with
+        | "BAD" -> FBadUtf8 | "DIR" -> FDir | h -> FFile (str_of_string (hex_decode h))) in
+      w_fs := (key, entry) :: !w_fs; "ok"
+  | ["RUNFILE"; i; dir; file] ->
+      let i = int_of_string i in
+      let ((r, c), trace) = eval_file !w_fs cwd efuel (str_of_string (hex_decode dir))
+          [str_of_string (hex_decode file)] (ctx_of i) in
+      commit i c;
+      String.concat ";" (List.map show_outcome trace) ^ "|" ^ show_outcome r ^ take_side ()
+  | ["REGSRC"; i; parts; h] ->
+      let i = int_of_string i in
+      let name = lname (List.map hex_decode (String.split_on_char ',' parts)) in
+      let (r, c) = factory_from_text name (str_of_string (hex_decode h)) (ctx_of i) in
+      commit i c;
+      (match r with
+       | Ok fa -> Hashtbl.replace insts i (register_factory (get_inst i) name fa); "ok"
+       | other -> show_res (fun _ -> "") other)
+  | ["PRINTF"; b] ->
+      "(disp " ^ hex_of_str (print_f32 (f32_of_bits (z_of_int (int_of_string ("0x" ^ b))))) ^ ")"
   | _ -> failwith ("bad line " ^ line)
 
 let () =
+  reset ();
   try
     while true do
       let line = input_line stdin in
